@@ -601,10 +601,49 @@ func (vc *VC) chanRecv(st *State, x *ssa.UnOp) Val {
 	panic(unsupported("channel receive"))
 }
 
+// Range over a map: a ghost "visited" set per iterator. Each Next yields a key of the domain not yet visited (any order),
+// or reports exhaustion when every key of the domain has been visited.
 func (vc *VC) rangeInit(st *State, x *ssa.Range) Val {
-	panic(unsupported("range over map or string"))
+	mt, ok := x.X.Type().Underlying().(*types.Map)
+	if !ok {
+		panic(unsupported("range over string"))
+	}
+	m := vc.get(st, x.X)
+	name := "G_iter_" + sanitize(x.Name()) + "_" + sanitize(x.Parent().Name())
+	vc.heapGet(st, name, "(Array Int Bool)")
+	vc.heapSet(st, name, "(Array Int Bool)", "((as const (Array Int Bool)) false)")
+	v := IntV(m.S, x.X.Type())
+	vc.iters[x] = iterInfo{ghost: name, m: m, mt: mt}
+	return v
+}
+
+type iterInfo struct {
+	ghost string
+	m     Val
+	mt    *types.Map
 }
 
 func (vc *VC) rangeNext(st *State, x *ssa.Next) Val {
-	panic(unsupported("range over map or string"))
+	rg, ok := x.Iter.(*ssa.Range)
+	if !ok {
+		panic(unsupported("next on unknown iterator"))
+	}
+	it, ok := vc.iters[rg]
+	if !ok {
+		panic(unsupported("next on an iterator that was not initialised"))
+	}
+	vis := vc.heapGet(st, it.ghost, "(Array Int Bool)")
+	dom, _, _ := vc.mapHeap(it.mt)
+	d := vc.name("dom", "(Array Int Bool)", Sel(vc.heapGet(st, dom, "(Array Int (Array Int Bool))"), it.m.S))
+	okv := vc.fresh("next_ok", "Bool")
+	kv := vc.freshVal("next_key", it.mt.Key())
+	k := mapKeyTerm(kv)
+	st.assume(vc, vc.valid(st, kv))
+	st.assume(vc, Imp(okv, And(Sel(d, k), Not(Sel(vis, k)))))
+	// exhaustion: nothing of the domain is left (also for a nil map: empty domain)
+	st.assume(vc, Imp(Not(okv), fmt.Sprintf("(forall ((x Int)) (! (=> (select %s x) (select %s x)) :pattern ((select %s x))))", d, vis, d)))
+	st.assume(vc, Imp(Eq(it.m.S, "0"), Not(okv)))
+	vc.heapSet(st, it.ghost, "(Array Int Bool)", Ite(okv, Sto(vis, k, T), vis))
+	val, _ := vc.mapLookup(st, it.m, it.mt, kv)
+	return Val{K: KTuple, T: x.Type(), Fs: []Val{BoolV(okv), kv, val}}
 }
